@@ -18,3 +18,14 @@ Theorem c17_every_reachable_world_satisfies_all_bookkeeping_invariants :
 Proof. exact reachable_ZI. Qed.
 Print Assumptions c17_every_reachable_world_satisfies_all_bookkeeping_invariants.
 
+
+Require Import EV.Reserve EV.Quiet.
+Open Scope N_scope.
+(* "... and no entity reservation is left pending": Quiet at every quiescent point (hypotheses as in Props/C03_tower.v) *)
+Theorem c17_no_entity_reservation_is_left_pending :
+  forall (beh : hinfo -> logent -> N -> script) (fuel p : N) (ops : list top_all),
+    NoTakeSpawn beh -> no_exhaustion beh ops (world0 fuel p) ->
+    let w := fold_left (run_top_all beh) ops (world0 fuel p) in
+    elen w < U32MAX -> w_rcnt w = 0 /\ w_rcur w = next_key_iter (w_ents w).
+Proof. exact reachable_Quiet. Qed.
+Print Assumptions c17_no_entity_reservation_is_left_pending.
